@@ -1,12 +1,14 @@
 #!/bin/sh
-# sensitivity self-test in priority order: controls first (false alarms), then the newest seeded changes
-# and mutants, then the thinly caught ones, then everything else.  Usage: tools/sens_priority.sh [rest]
+# sensitivity self-test in priority order (each --only pass merges its entries into selftest/sensitivity-report.json).
+# Usage: tools/sens_priority.sh [new|controls|rest]...   (default: new controls)
 cd "$(dirname "$0")/.." || exit 2
-for k in NC- PERM- mutants/nc- g-v c16k c16l c19f m-valid-cache-check m-hj-ranking-key-memo c16d-v1 c16e-v1 c16f-v; do
-  /venv/bin/python selftest/sensitivity.py --only "$k"
+[ $# -eq 0 ] && set -- new controls
+for part in "$@"; do
+  case $part in
+    new)      keys="h-v c16m c19g NC-nc9 NC-nc7b-r1 NC-refthr NC-refsch-r1 mutants/nc-lock fifo c03g c08g c16k c16l c19f m-valid-cache-check m-hj-ranking-key-memo c16d-v1 c16e-v1 c16f-v c02g" ;;
+    controls) keys="NC- PERM- mutants/nc-" ;;
+    rest)     keys="mutants/m- mutants/rev- seeded/C19 seeded/C16 seeded/C08 seeded/C03 seeded/C02" ;;
+    *)        keys="$part" ;;
+  esac
+  for k in $keys; do /venv/bin/python selftest/sensitivity.py --only "$k"; done
 done
-if [ "$1" = rest ]; then
-  for k in mutants/m- mutants/rev- seeded/C19 seeded/C16 seeded/C08 seeded/C03 seeded/C02; do
-    /venv/bin/python selftest/sensitivity.py --only "$k"
-  done
-fi
